@@ -58,6 +58,8 @@ def check(prop, tier, seed):
         if (r['alpn'] == 'h2' and r['client_auth'] == 'none' and r['identity'] == 'none' and r['roots'] == 'right' and r['name'] == 'match' and r['tls_cfg']):
             for a2 in ('h2', 'none', 'http/1.1'):
                 extra.append(dict(r, second_alpn=a2, **{'class': 'second_connection'}))
+            # ... or to a second tonic server of the same process that requires client certificates (the client has none)
+            extra.append(dict(r, second_alpn='h2', second_client_auth='required', **{'class': 'second_server_is_strict'}))
     rows = rows + extra
     presented = {'valid': [_digest(c) for c in _pem_ders('client_c.pem')], 'chain': [_digest(c) for c in _pem_ders('client_chain.pem')]}
     if len(presented['valid']) != 1 or len(presented['chain']) != 2:
